@@ -30,6 +30,11 @@ impl SubModel {
         SubModel { ids_only: true, eoq: true, last_change: Some(from), ..Default::default() }
     }
 
+    /// attached with skip_rows: no snapshot, the first change event sets the baseline
+    pub fn skipping_rows() -> Self {
+        SubModel { ids_only: true, eoq: true, last_change: None, ..Default::default() }
+    }
+
     /// apply one event; Err = the stream itself is inconsistent
     pub fn apply(&mut self, ev: &Value) -> Result<(), Fail> {
         if self.log.len() < 400 {
